@@ -257,7 +257,7 @@ def run_property(prop, tier="quick", seed=0, record_expected=False, only=None, j
         # a solver timeout is a statement about the machine, not about the code: tasks with timed-out obligations are run again, few at a
         # time and with a larger budget, before anything is reported
         for factor, width in ((4, 4),):
-            again = [k for k, o in enumerate(outs) if any(r["status"] == "unknown" and "timeout" in str(r.get("detail", "")).lower() for r in o["results"])]
+            again = [k for k, o in enumerate(outs) if any(r["status"] == "unknown" and "timeout" in str(r.get("detail", "")).lower() and "hard limit" not in str(r.get("detail", "")) for r in o["results"])]
             if not again or os.environ.get("PYVC_TIMEOUT_FACTOR"):
                 break
             if any(r["status"] == "refuted" for o in outs for r in o["results"]):
